@@ -420,9 +420,15 @@ func gen(seed uint64, tier string) {
 	knownCorpus(emit)
 	// phase 4 (quadrants.go): one-quadrant placements at tiny scales; lines inside the bounding box of a slanted hole / on an island
 	quadrantCorpus(emit)
-	quadrantCases(r, n/15, emit)
-	holeBoxCases(r, n/25, emit)
-	farMemberCases(r, n/40, emit)
+	capN := func(k, mx int) int {
+		if k > mx {
+			return mx
+		}
+		return k
+	}
+	quadrantCases(r, capN(n/15, 3500), emit)
+	holeBoxCases(r, capN(n/25, 2500), emit)
+	farMemberCases(r, capN(n/40, 1500), emit)
 }
 
 // scaleFor picks the coordinate scale of a case: mostly 1, otherwise a power of two.
